@@ -1,13 +1,17 @@
 --------------------------- MODULE MCNodeRecovery ---------------------------
 EXTENDS NodeRecovery
-CONSTANTS Name, MaxEntries, MaxCrash, MaxFlush
+CONSTANTS Name, MaxEntries, MaxCrash, MaxFlush,
+          AtomicRound   \* TRUE: a replica round is one step relative to the flush job (the repaired design)
 VARIABLES ncrash, nflush
 mcvars == <<vars, ncrash, nflush>>
 MCInit == Init /\ ncrash = 0 /\ nflush = 0
 Same == UNCHANGED <<ncrash, nflush>>
 MCNext ==
   \/ (\E n \in Name : Len(wal) < MaxEntries /\ AppendEntry(n)) /\ Same
-  \/ ReplicaStep /\ Same
+  \/ AtomicRound /\ ReplicaStep /\ Same
+  \/ ~AtomicRound /\ RBegin /\ Same
+  \/ ~AtomicRound /\ RWrite /\ Same
+  \/ ~AtomicRound /\ RCommit /\ Same
   \/ MetaFlush /\ nflush < MaxFlush /\ nflush' = nflush + 1 /\ UNCHANGED ncrash
   \/ FamilyFreeze /\ Same
   \/ FamilyCommit /\ Same
